@@ -45,6 +45,7 @@ for k in ks:
             rcc, outc = sh("./check %s" % pid, cwd="/verif", timeout=3000)
         finally:
             sh("git checkout -- .", cwd="/repo")
+            sh("git checkout -- lean/UflVerif/Gen", cwd="/verif")     # data regenerated from the mutated tree must not stay behind
         rec["check_quick_exit"] = rcc
         rec["check_output_tail"] = "\n".join(outc.strip().splitlines()[-6:])
         rec["detected"] = (rcc == 1 and "VIOLATION property=%s" % pid in outc)
